@@ -10,7 +10,10 @@ use std::sync::Arc;
 /// * tag.
 #[derive(Clone, Debug, Default)]
 pub struct Dimensions {
+    #[cfg(not(kani))]
     index: HashMap<TypeId, Arc<dyn Any + Send + Sync>, BuildHasherDefault<FxHasher>>,
+    #[cfg(kani)]
+    index: crate::verif_containers::ListMap<TypeId, Arc<dyn Any + Send + Sync>>,
 }
 
 impl Dimensions {
